@@ -363,6 +363,36 @@ func (w *c03World) checkTreeConsistent() {
 	}
 }
 
+// checkReparentAssumption tests the consistency clauses `self` and `below` of `ReparentOK` (Lean: reparent_inv) on
+// the implementation's own report before a move: the moved group's own part is within its total, and its total is
+// contained in every old ancestor's.  (The clauses `fits` / `exLeaf` are what the generator itself guarantees.)
+func (w *c03World) checkReparentAssumption(x *c03Quota) {
+	sums := w.gp.groupQuotaManager.GetQuotaSummaries(false)
+	sx := sums[c03QName(x.id)]
+	if sx == nil {
+		return
+	}
+	u, n := c03FromList(sx.Used), c03FromList(sx.NonPreemptibleUsed)
+	su, sn := c03FromList(sx.SelfUsed), c03FromList(sx.SelfNonPreemptibleUsed)
+	for d := 0; d < c03D; d++ {
+		if su.v[d] < 0 || su.v[d] > u.v[d] || sn.v[d] < 0 || sn.v[d] > n.v[d] {
+			w.h.Fail("C03:reparent-assumption", "group %d: self used %v / %v not within used %v / %v", x.id, su.v, sn.v, u.v, n.v)
+		}
+	}
+	for _, g := range w.chain(x.parent) {
+		sg := sums[c03QName(g)]
+		if sg == nil {
+			continue
+		}
+		gu, gn := c03FromList(sg.Used), c03FromList(sg.NonPreemptibleUsed)
+		for d := 0; d < c03D; d++ {
+			if u.v[d] > gu.v[d] || n.v[d] > gn.v[d] {
+				w.h.Fail("C03:reparent-assumption", "group %d used %v / %v is not contained in its ancestor %d's %v / %v", x.id, u.v, n.v, g, gu.v, gn.v)
+			}
+		}
+	}
+}
+
 // afterReset: a tree reset cleared every Runtime list (clearForResetNoLock); the next attempt re-reads them.
 func (w *c03World) afterReset() {
 	for _, q := range w.quotas {
@@ -543,6 +573,7 @@ func (w *c03World) metaEvent(r *vRand, pending *int) {
 				}
 			}
 		}
+		w.checkReparentAssumption(x)
 		x.parent = np
 		if r.Chance(1, 5) {
 			x.lent = !x.lent // a parent change wins over every other meta change
